@@ -215,6 +215,22 @@ func runC09(cfg *vh.Config) error {
 		}
 	}
 
+	// ---- the write decision of the command against model/BclCli.v (stream cli)
+	{
+		var good []string
+		for _, in := range inputs {
+			if len(good) >= 60 {
+				break
+			}
+			if _, err := bcl.FmtPublic(in.src); err == nil && len(in.src) > 0 && len(in.src) < 400 {
+				good = append(good, in.src)
+			}
+		}
+		if err := runCliStream(cfg, res, cf, &caseNo, good); err != nil {
+			return err
+		}
+	}
+
 	// ---- direct ties: tokenSource and reformatDescription
 	litPieces := []string{"a", "b c", "\\", "\"", "\n", "/", "//", "*", "*/", "é", "日本", "\t", " ", "​", "\U0001F600", "\x01", "|", " ", "'"}
 	for i := 0; i < cfg.Scale(300, 8000); i++ {
